@@ -142,3 +142,59 @@ def gc_contract(shared):
 
 C["kneeliverse.evaluation.compute_global_cost#shared"] = gc_contract(True)
 C["kneeliverse.evaluation.compute_global_cost#fresh"] = gc_contract(False)
+
+
+# ------------------------------------------------------------------ C19: MAE / MSE / RMSE / RMSPE (nearest-neighbour matching)
+STRAT = "Enum[kneeliverse.evaluation.Strategy]"
+_KP = "points[knees]"
+_MATCH_REQ = ["len(knees) >= 1", "len(expected) >= 1",
+              "forall(0, len(knees), lambda k: 0 <= knees[k] and knees[k] < len(points))"]
+_MATCH_PARAMS = {"points": PTS, "knees": "Seq[Int]", "expected": PTS, "s": STRAT}
+_D = lambda p, q: "sqrt(sq(%s[0] - %s[0]) + sq(%s[1] - %s[1]))" % (q, p, q, p)      # np.linalg.norm(b - p, axis=1)[q]
+_TERMS = {"mae": lambda p, q: "(absr(%s[0] - %s[0]) + absr(%s[1] - %s[1]))" % (p, q, p, q),
+          "mse": lambda p, q: "(sq(%s[0] - %s[0]) + sq(%s[1] - %s[1]))" % (p, q, p, q)}
+
+
+def _matching(fname, strat, a, b):
+    """result == (Sum over the rows a[j] of the selected side of term(a[j], b[M[j]])) / (2 |a|), M[j] (ghost) a nearest row of the other side"""
+    term = _TERMS[fname]
+    tj = term("(%s)[j]" % a, "(%s)[M[j]]" % b)
+    return dict(
+        function="kneeliverse.evaluation.%s" % fname, mode="R", owner="C19",
+        params=_MATCH_PARAMS, returns="Real", ghost_vars={"M": "Seq[Int]"},
+        requires=_MATCH_REQ + ["s is Strategy.%s" % strat],
+        ensures=["forall(0, len(%s), lambda j: 0 <= M[j] and M[j] < len(%s))" % (a, b),
+                 "forall(0, len(%s), lambda j: forall(0, len(%s), lambda q: %s <= %s))" % (a, b, _D("(%s)[j]" % a, "(%s)[M[j]]" % b), _D("(%s)[j]" % a, "(%s)[q]" % b)),
+                 "result == Sum(0, len(%s), lambda j: %s) / (len(%s) * 2.0)" % (a, tj, a),
+                 "result >= 0"],
+        loops={0: dict(
+            inv=["forall(0, _it0, lambda j: 0 <= M[j] and M[j] < len(%s))" % b,
+                 "forall(0, _it0, lambda j: forall(0, len(%s), lambda q: %s <= %s))" % (b, _D("(%s)[j]" % a, "(%s)[M[j]]" % b), _D("(%s)[j]" % a, "(%s)[q]" % b)),
+                 "error == Sum(0, _it0, lambda j: %s)" % tj, "error >= 0"],
+            ghost_end=["M = store(M, _it0 - 1, idx)"]      # the counter is already advanced when ghost_end runs,
+        )},
+    )
+
+
+for _f in ("mae", "mse"):
+    # base contract (every strategy): defined, non-negative; the value is named so that rmse can refer to it
+    C["kneeliverse.evaluation.%s" % _f] = dict(
+        mode="R", owner="C19", params=_MATCH_PARAMS, returns="Real", requires=_MATCH_REQ,
+        ensures=["result >= 0"], loops={0: dict(inv=["error >= 0"])})
+    C["kneeliverse.evaluation.%s#knees" % _f] = _matching(_f, "knees", _KP, "expected")
+    C["kneeliverse.evaluation.%s#expected" % _f] = _matching(_f, "expected", "expected", _KP)
+    # perfect detection: the expected points are exactly the knee points -> 0 (any strategy)
+    C["kneeliverse.evaluation.%s#perfect" % _f] = dict(
+        function="kneeliverse.evaluation.%s" % _f, mode="R", owner="C19", params=_MATCH_PARAMS, returns="Real",
+        requires=_MATCH_REQ + ["len(expected) == len(knees)",
+                               "forall(0, len(knees), lambda k: expected[k][0] == points[knees[k]][0] and expected[k][1] == points[knees[k]][1])"],
+        ensures=["result == 0"],
+        loops={0: dict(inv=["error == 0", "len(a) == len(b)", "forall(0, len(a), lambda k: a[k][0] == b[k][0] and a[k][1] == b[k][1])"],
+                       hints=["p[0] == a[_it0 - 1][0] and p[1] == a[_it0 - 1][1]",
+                              "sq(b[_it0 - 1][0] - p[0]) + sq(b[_it0 - 1][1] - p[1]) == 0",
+                              "distances[_it0 - 1] == sqrt(sq(b[_it0 - 1][0] - p[0]) + sq(b[_it0 - 1][1] - p[1]))",
+                              "distances[_it0 - 1] == 0", "distances[idx] <= distances[_it0 - 1]",
+                              "distances[idx] == sqrt(sq(b[idx][0] - p[0]) + sq(b[idx][1] - p[1]))",
+                              "distances[idx] >= 0", "distances[idx] == 0",
+                              "sq(b[idx][0] - p[0]) + sq(b[idx][1] - p[1]) == 0",
+                              "b[idx][0] == p[0] and b[idx][1] == p[1]"])})
